@@ -70,7 +70,13 @@ func (i IPAddr) IsLoopback() bool {
 	// 		The reason for IpV4 is that provided the truncated ip address is a
 	// 		loopback address, its prefix cannot be less than 8 because
 	// 		otherwise its more significant byte cannot be 127
-	return i.Prefix().Masked().Addr().IsLoopback()
+	addr := i.Prefix().Masked().Addr()
+	if addr.Is4In6() {
+		// an IPv4-mapped IPv6 address is an IPv6 address, for which only ::1 is loopback
+		// (netip unmaps it and would test the embedded IPv4 address)
+		return false
+	}
+	return addr.IsLoopback()
 }
 
 func (i IPAddr) Addr() netip.Addr {
@@ -95,6 +101,11 @@ func (i IPAddr) IsMulticast() bool {
 		minPrefixLen = 4
 	} else {
 		minPrefixLen = 8
+	}
+	if i.Addr().Is4In6() {
+		// an IPv4-mapped IPv6 address is an IPv6 address outside ff00::/8 (netip unmaps it
+		// and would test the embedded IPv4 address)
+		return false
 	}
 	return i.Addr().IsMulticast() && i.Prefix().Bits() >= minPrefixLen
 }
